@@ -865,7 +865,13 @@ impl Lexer<'_> {
             }
             c if is_valid_unicode_sas_name_start(c) => {
                 self.lex_identifier();
-                self.set_pending_stat(true);
+                // The only way to get a semicolon as the last token here is a whole datalines
+                // block, which ends with its terminator - no statement is pending after it
+                let is_datalines = self
+                    .buffer
+                    .last_token_info()
+                    .map_or(false, |t| t.token_type == TokenType::SEMI);
+                self.set_pending_stat(!is_datalines);
             }
             _ => {
                 // Something else must be a symbol or some unknown character
